@@ -3,6 +3,7 @@
 /repo's history after fix commits were amended: commits are matched by a distinctive subject fragment."""
 import json, subprocess, re
 FRAG = {
+ "F44": "handshake response carrying the node's own key must not authenticate",
  "F43": "transaction builder rejects payments whose total wraps",
  "F38": "fees paid by bound (NFT) transactions must be collected",
  "F39": "rebroadcast of an NFT group must take its rebroadcast fee",
